@@ -8,7 +8,7 @@ PROPS_FILE = "C20.v"
 RUN_MODULE = "RunC20"
 TRANSLATOR_UNITS = []
 RULE = ("fmt: the whole accepted grammar fill{none,' ','*','0','x'} x align{none,<,>,=} x sign x '#' x '0' x "
-        "width{none,1,5,12} x '_' x type{none,b,o,d,x,X,c,s} (19456 specs, each with a shape that accepts it when one "
+        "width{none,1,5,12} x '_' x type{none,b,o,d,x,X,c,s} (16384 specs, each with a shape that accepts it when one "
         "exists, 8% with a rejecting shape) x boundary/random values (1 per spec quick, 6 thorough), model py_format vs "
         "CPython format(); spec: grammar-random and mutated/invalid spec strings ('^', ',', 'n', precision, '00', "
         "unicode/brace/newline fills, '=' or sign or '#' with c/s, s on widths not multiple of 8) vs Format(...) "
@@ -17,7 +17,7 @@ RULE = ("fmt: the whole accepted grammar fill{none,' ','*','0','x'} x align{none
         "Assert/Assume/Cover with and without message, pos/neg-edge domain, sync reset, async reset excluded) driven "
         "by hand over 6-16 steps; observable = captured stdout + exception class/text + step index; "
         "rtl: FORMAT parameter of the $print cell written by back.rtlil for Print(Format('x{' '{:spec}', sig)) over every "
-        "7th spec of the grammar (all in thorough) + random + fixed ('<05', '5c', brace and non-ASCII fills) vs the model "
+        "13th spec of the grammar (all in thorough) + random + fixed ('<05', '5c', brace and non-ASCII fills) vs the model "
         "of emit_print's string building. "
         "non-trivial = accepted spec (fmt/spec) or non-empty output/stop (sim); distinct by case hash")
 MODELLED = ("Format._FORMAT_SPEC_PATTERN/_parse_format_spec, _StatementCompiler.emit_format/on_Print/on_Property, "
@@ -180,11 +180,11 @@ def gen_cases(tier, seed):
     for fill_align, sign, alt, zero, width, grp, t in itertools.product(
             fa, ["", "-", "+", " "], ["", "#"], ["", "0"], ["", "1", "5", "12"], ["", "_"], TYPES):
         k += 1
-        if not thorough and k % 7 != seed % 7:
+        if not thorough and k % 13 != seed % 13:
             continue
         w, sg = _shape_for(rng, t, bad=rng.random() < 0.03)
         cases.append({"k": "rtl", "spec": fill_align + sign + alt + zero + width + grp + t, "w": w, "sg": sg})
-    for _ in range(600 if not thorough else 6000):
+    for _ in range(300 if not thorough else 6000):
         w, sg = _shape_for(rng, rng.choice(TYPES))
         spec, t = _rand_spec(rng, valid=rng.random() < 0.9, shape=(w, sg), allow_brace=rng.random() < 0.1)
         cases.append({"k": "rtl", "spec": spec, "w": w, "sg": sg})
